@@ -70,6 +70,9 @@ def cleanup(scratch):
     shutil.rmtree(scratch, ignore_errors=True)
 
 
+MIN_AVAILABLE_MB = 5000
+
+
 class _Watchdog(threading.Thread):
     """Kill cbmc descendants of `root_pid` whose RSS exceeds the limit."""
     def __init__(self, root_pid):
@@ -102,6 +105,22 @@ class _Watchdog(threading.Thread):
                             self.killed.append(pid)
                         except OSError:
                             pass
+                # system-wide pressure (no swap on this image: the kernel OOM killer would take kani-driver and with it
+                # every pending harness): give up the LARGEST cbmc of this run instead; it is reported as budget exhausted
+                avail = None
+                for l in open('/proc/meminfo'):
+                    if l.startswith('MemAvailable:'):
+                        avail = int(l.split()[1]) / 1024
+                if avail is not None and avail < MIN_AVAILABLE_MB:
+                    mine = [(rss, pid) for pid, (pp, rss, comm) in procs.items() if comm.startswith('cbmc') and is_desc(pid)]
+                    if mine:
+                        rss, pid = max(mine)
+                        try:
+                            os.kill(pid, 9)
+                            self.killed.append(pid)
+                        except OSError:
+                            pass
+                        time.sleep(3)
             except Exception:
                 pass
             time.sleep(2)
